@@ -66,6 +66,7 @@ func stressRR(cfg M, tr *Trace, seed int64) {
 			}
 			tr.Emit(M{"e": "Upsert", "k": k, "v": 0, "w": int(w.(float64)), "err": false, "members": s.members()})
 		}
+		s.h.concurrent = true
 		hl := newHookLog(s.rr)
 		G, K := numOr(cfg, "goroutines", 8), numOr(cfg, "picks", 200)
 		admin := boolOr(cfg, "admin", false)
